@@ -42,6 +42,19 @@ Theorem C02_scalar_exact : forall s v, kind_scalar s v = true ->
 Proof. exact scalar_exact_all. Qed.
 Print Assumptions C02_scalar_exact.
 
+(* a `date` given as a datetime / date / string: the day written is the calendar day CONTAINING the instant, before 1970 too
+   (floor, not truncation): any time of day on day d gives d, hence the bytes of d + 2^31 by C02_scalar_exact *)
+Theorem C02_date_of_instant : forall d tod, 0 <= tod < 86400 ->
+  date_days_of_seconds (86400 * d + tod) = d /\
+  ser_scalar SDate (VInt (date_days_of_seconds (86400 * d + tod))) = ser_scalar SDate (VInt d).
+Proof. intros d tod H. rewrite (date_of_instant d tod H). split; reflexivity. Qed.
+Print Assumptions C02_date_of_instant.
+
+Theorem C02_date_day_contains : forall secs,
+  86400 * date_days_of_seconds secs <= secs < 86400 * (date_days_of_seconds secs + 1).
+Proof. exact date_day_contains. Qed.
+Print Assumptions C02_date_day_contains.
+
 (* struct-packed integers: big-endian two's complement exactly on the type's range, refused (struct.error) outside *)
 Theorem C02_fixed_width_exact : forall n signed z,
   pack_int n signed z = if int_range n signed z then Some (spec_be n z) else None.
